@@ -175,31 +175,131 @@ def replay_judge(result, recursive):
     return None
 
 
-def gen_history(r, n, allow_outside_ops=False):
+def gen_history(r, n, allow_outside_ops=False, tree=None):
+    """mostly-valid operations: the generator keeps its own picture of the tree (W and O) and draws
+    operations that are applicable in it (plus ~10% blind ones); directories that left W keep their
+    kernel watches (D2), so unless allowed nothing touches what lies in O afterwards"""
+    tree = dict(tree) if tree else {"W": "d", "O": "d"}
     ops = []
-    moved_out = []   # O-paths of directories that left W with their watches
+    tainted = set()
+
+    def dirs(prefixes=("W", "O")):
+        return [p for p, k in tree.items() if k == "d" and p.split("/")[0] in prefixes
+                and not any(p == t or p.startswith(t + "/") for t in tainted)]
+
+    def files():
+        return [p for p, k in tree.items() if k == "f" and not any(p.startswith(t + "/") for t in tainted)]
+
+    def subtree(p):
+        return [q for q in tree if q == p or q.startswith(p + "/")]
+
     for _ in range(n):
+        if r.random() < 0.1:
+            d, nme = r.choice(DIRS), r.choice(NAMES)
+            op = r.choice([("create", f"{d}/{nme}"), ("unlink", f"{d}/{nme}"), ("rmdir", f"{d}/{nme}"), ("mkdir", f"{d}/{nme}")])
+            if not op[1].startswith("W"):
+                continue
+            # apply to our picture only if valid
+            par = op[1].rsplit("/", 1)[0]
+            if op[0] in ("create", "mkdir") and tree.get(par) == "d" and op[1] not in tree:
+                tree[op[1]] = "f" if op[0] == "create" else "d"
+            elif op[0] == "unlink" and tree.get(op[1]) == "f":
+                del tree[op[1]]
+            elif op[0] == "rmdir" and tree.get(op[1]) == "d" and len(subtree(op[1])) == 1:
+                del tree[op[1]]
+            ops.append(op)
+            continue
         k = r.random()
-        d = r.choice(DIRS if allow_outside_ops else [x for x in DIRS if x.startswith("W")] + ["O"])
-        nme = r.choice(NAMES)
-        if k < 0.2:
-            ops.append(("create", f"{d}/{nme}"))
-        elif k < 0.3:
-            ops.append(("write", f"{d}/{nme}"))
+        ds = dirs(("W",) if r.random() < 0.85 else ("W", "O"))
+        fs_ = [f for f in files() if f.startswith("W/") or r.random() < 0.2]
+        if k < 0.2 and ds:
+            p = r.choice(ds) + "/" + r.choice(NAMES)
+            if p not in tree:
+                tree[p] = "f"
+                ops.append(("create", p))
+        elif k < 0.3 and fs_:
+            ops.append(("write", r.choice(fs_)))
         elif k < 0.37:
-            ops.append(("chmod", f"{d}/{nme}"))
-        elif k < 0.48:
-            ops.append(("unlink", f"{d}/{nme}"))
-        elif k < 0.64:
-            ops.append(("mkdir", f"{d}/{nme}"))
-        elif k < 0.7:
-            ops.append(("rmdir", f"{d}/{nme}"))
-        elif k < 0.75:
-            ops.append(("rmtree", f"{d}/{nme}"))
+            cand = [p for p in list(fs_) + ds if p.count("/") >= 1]
+            if cand:
+                ops.append(("chmod", r.choice(cand)))
+        elif k < 0.47 and fs_:
+            p = r.choice(fs_)
+            del tree[p]
+            ops.append(("unlink", p))
+        elif k < 0.62 and ds:
+            p = r.choice(ds) + "/" + r.choice(NAMES)
+            if p not in tree:
+                tree[p] = "d"
+                ops.append(("mkdir", p))
+        elif k < 0.68:
+            cand = [d for d in ds if d.count("/") >= 1 and len(subtree(d)) == 1]
+            if cand:
+                p = r.choice(cand)
+                del tree[p]
+                ops.append(("rmdir", p))
+        elif k < 0.73:
+            cand = [d for d in ds if d.count("/") >= 1 and d.startswith("W/")]
+            if cand:
+                p = r.choice(cand)
+                for q in subtree(p):
+                    del tree[q]
+                ops.append(("rmtree", p))
         else:
-            d2 = r.choice(["W", "W/d", "W/dd", "O"])
-            ops.append(("rename", f"{d}/{nme}", f"{d2}/{r.choice(NAMES)}"))
+            cand = [p for p in list(fs_) + ds if p.count("/") >= 1]
+            dds = dirs(("W", "O"))
+            if cand and dds:
+                s_ = r.choice(cand)
+                dpar = r.choice(dds)
+                d_ = dpar + "/" + r.choice(NAMES)
+                if d_ == s_ or d_.startswith(s_ + "/") or dpar == s_ or dpar.startswith(s_ + "/"):
+                    continue
+                if d_ in tree:
+                    # replace: same kind, a directory only if empty
+                    if tree[d_] != tree[s_] or (tree[d_] == "d" and len(subtree(d_)) > 1):
+                        continue
+                    del tree[d_]
+                moved = {q: tree[q] for q in subtree(s_)}
+                for q in moved:
+                    del tree[q]
+                for q, kk in moved.items():
+                    tree[d_ + q[len(s_):]] = kk
+                if s_.startswith("W/") and d_.startswith("O/") and moved[s_] == "d" and not allow_outside_ops:
+                    tainted.add(d_)
+                ops.append(("rename", s_, d_))
     return ops
+
+
+def tree_after(tree, ops):
+    """the generator's own picture of the tree after `ops` (only operations valid in it take effect)"""
+    t = dict(tree)
+    for op in ops:
+        k = op[0]
+        if k in ("create", "mkdir"):
+            par = op[1].rsplit("/", 1)[0]
+            if t.get(par) == "d" and op[1] not in t:
+                t[op[1]] = "f" if k == "create" else "d"
+        elif k == "unlink" and t.get(op[1]) == "f":
+            del t[op[1]]
+        elif k == "rmdir" and t.get(op[1]) == "d" and not any(q.startswith(op[1] + "/") for q in t):
+            del t[op[1]]
+        elif k == "rmtree" and t.get(op[1]) == "d":
+            for q in [q for q in t if q == op[1] or q.startswith(op[1] + "/")]:
+                del t[q]
+        elif k == "rename" and op[1] in t:
+            s_, d_ = op[1], op[2]
+            if t.get(d_.rsplit("/", 1)[0]) != "d":
+                continue
+            if d_ in t:
+                if t[d_] != t[s_] or any(q.startswith(d_ + "/") for q in t):
+                    continue
+                del t[d_]
+            moved = {q: t[q] for q in t if q == s_ or q.startswith(s_ + "/")}
+            for q in moved:
+                del t[q]
+            for q, kk in moved.items():
+                t[d_ + q[len(s_):]] = kk
+    return t
 
 
 FIXED = [
